@@ -529,8 +529,8 @@ fn run_repo(cfg_seed: u64, idx: u64, steps: usize, stream: u64) -> Vec<Rec> {
             Ok(s) => s,
             Err(e) => {
                 let mut rec = Rec::new(None, String::new());
-                rec.notes.push(format!("repo {idx} step {step}: after {:?}: {e}", planned.as_ref().map(|p| p.kind)));
-                rec.tallies.push(("aborted", e.chars().take(40).collect()));
+                rec.notes.push(format!("repo {idx} step {step}: after {:?}: {}", planned.as_ref().map(|p| p.kind), e.chars().rev().take(160).collect::<Vec<_>>().into_iter().rev().collect::<String>()));
+                rec.tallies.push(("aborted", if e.contains("divergent") { "divergent change after the step".into() } else { e.chars().take(40).collect() }));
                 recs.push(rec);
                 return recs;
             }
@@ -714,7 +714,7 @@ fn two_workspace_scenario(seed: u64) -> Rec {
 
 pub fn run(cfg: &Cfg, out: &mut Out) {
     // `repos=N` on the command line overrides the tier's count (development aid)
-    let repos = cfg.extra.iter().find_map(|a| a.strip_prefix("repos=").and_then(|n| n.parse().ok())).unwrap_or(cfg.n(240, 3000) as usize);
+    let repos = cfg.extra.iter().find_map(|a| a.strip_prefix("repos=").and_then(|n| n.parse().ok())).unwrap_or(cfg.n(200, 3000) as usize);
     let steps = 10;
     let seed = cfg.seed;
     let t0 = std::time::Instant::now();
